@@ -10,10 +10,13 @@ Inductive topo_kind :=
 Record device := mkDev {
   dname : string;                     (* class name *)
   dnative : option (list string);     (* self.native_gates (None = Python None) *)
-  dtopo : topo_kind }.
+  dtopo : topo_kind;                  (* what topology_map does for a circuit as wide as the processor *)
+  dnarrow : option topo_kind;         (* `if qc.N < self.num_qubits: return to_chain_structure(qc, ..)` (None = no such test) *)
+  dunrouted : list string }.          (* gates topology_map refuses (ValueError) unless targets[0], targets[1] are neighbours *)
 
 (* the statements of ModelProcessor.transpile, in their order *)
 Inductive pass :=
+| PWidth                  (* if qc.N > self.num_qubits: raise ValueError *)
 | PExpand                 (* if native_gates is not None: qc = self._decompose_multi_qubit_gates(qc) *)
 | PTopology               (* try: qc = self.topology_map(qc)  except NotImplementedError: pass *)
 | PResolve.               (* if native_gates is not None: qc = qc.resolve_gates(basis=self.native_gates) *)
